@@ -1,14 +1,17 @@
 package main
 
 import (
+	"encoding/json"
 	"fmt"
 	"os"
+	"sort"
 	"strings"
 )
 
 // ---------------------------------------------------------------------------------------------
-// C17 — v1 API (package lib): Patch(a, Diff(a, b, meta)) Equals b, and the diff is empty exactly
-// when Equals holds (in-memory half: Diff / Patch / Equals / hashCode).
+// C17 — v1 API (package lib): Patch(a, Diff(a, b, meta)) Equals b, directly (in-memory half: Diff /
+// Patch / Equals / hashCode) or after Render and ReadDiffString (text half), and the diff is empty
+// exactly when Equals holds.
 
 type v1Choice struct {
 	m     V1Meta
@@ -67,9 +70,12 @@ func v1Choices() []v1Choice {
 }
 
 func propC17(run *Run, n int) {
-	run.rule = "v1 (package lib): random (a, b=mutation of a; arrays growing, shrinking, changing in place) x v1 metadata {none, SET, MULTISET, SET+Setkeys, Setkeys alone, MERGE (null-free), SetPrecision} plus out-of-domain combinations checked for correspondence only; non-trivial = the diff has at least one hunk; distinct = distinct (metadata, a, b)"
+	run.rule = "v1 (package lib): random (a, b=mutation of a; arrays growing, shrinking, changing in place) x v1 metadata {none, SET, MULTISET, SET+Setkeys, Setkeys alone, MERGE (null-free), SetPrecision} plus out-of-domain combinations checked for correspondence only; every case both on the in-memory diff and on the diff after Render and ReadDiffString; plus damaged diffs and hand-written diff texts (correspondence only); non-trivial = the diff has at least one hunk; distinct = distinct (metadata, a, b)"
 	r := NewRng(run.Seed)
 	choices := v1Choices()
+	for _, dw := range v1RenderSpecials {
+		addV1RenderCase(run, "special", dw)
+	}
 	for i := 0; i < n; i++ {
 		ch := choices[r.Intn(len(choices))]
 		cfg := ch.cfg()
@@ -109,6 +115,30 @@ func propC17(run *Run, n int) {
 		default:
 			a, b = cfg.Pair(r)
 		}
+		if len(cfg.SetKeys) > 0 && r.Chance(1, 5) {
+			// a keyed member changes in one, two or three non-key fields (several hunks under one keyed path element)
+			a = cfg.Arr(r, 0)
+			b = a.Clone()
+			for _, e := range b.A {
+				if e.K != KObj || r.Chance(1, 3) {
+					continue
+				}
+				for j := 1 + r.Intn(3); j > 0; j-- {
+					k := cfg.Keys[r.Intn(len(cfg.Keys))]
+					if isIn(k, cfg.SetKeys) {
+						continue
+					}
+					if _, has := e.O[k]; has && r.Chance(1, 4) {
+						delete(e.O, k)
+					} else {
+						e.O[k] = cfg.Doc(r, 2)
+					}
+				}
+			}
+			if r.Chance(1, 3) {
+				a, b = VObj("k", a), VObj("k", b)
+			}
+		}
 		if ch.m.Has("P") && ch.m[len(ch.m)-1].Prec > 0 && r.Chance(1, 3) {
 			b = a.Clone()
 			jitter(r, b)
@@ -120,6 +150,9 @@ func propC17(run *Run, n int) {
 		addC17Case(run, ch.m, ch.label, ch.inDomain || os.Getenv("VERIF_C17_ALL") == "1", a, b)
 		if r.Chance(1, 8) {
 			addV1HostileCase(run, ch.m, ch.label, a, b, r, cfg)
+		}
+		if r.Chance(1, 16) {
+			addV1ReadDiffCase(run, malformedV1DiffText(r))
 		}
 	}
 }
@@ -153,6 +186,9 @@ func addC17Case(run *Run, m V1Meta, label string, inDomain bool, a, b *Val) {
 		c.Probes = append(c.Probes, Probe{Kind: "oracle", Rel: "C17 v1: patch(a,diff(a,b)) ≈ b and (diff empty ⇔ Equals) (impl outputs, spec Equiv)",
 			Line: fmt.Sprintf("c17 %s %s %s %s %s %s %s", mw, aw, bw, boolWire(eqRB), outcome, boolWire(diffEmpty), eqAB)})
 	}
+	if dw != "panic" {
+		addC17TextHalf(run, &c, m, inDomain, strings.HasPrefix(outcome, "ok ") && eqRB, aw, bw, dw)
+	}
 	run.Count("meta:" + label)
 	run.Count("hunks:" + sizeBucket(hunkCount(dw)))
 	run.Count("size_a:" + sizeBucket(a.Size()))
@@ -167,6 +203,235 @@ func addC17Case(run *Run, m V1Meta, label string, inDomain bool, a, b *Val) {
 			run.Count("root_array:same_length")
 		}
 	}
+	run.Add(c)
+}
+
+// addC17TextHalf: the same case through the native text format. Correspondence of Render and
+// ReadDiffString on the diff, of Patch on the re-read diff, and the property itself.
+// memOK: the in-memory half held on this case (Patch succeeded and its result Equals b).
+func addC17TextHalf(run *Run, c *Case, m V1Meta, inDomain, memOK bool, aw, bw, dw string) {
+	mw := m.Wire()
+	th := implV1TextHalf(m, aw, bw)
+	c.Desc["impl_render"] = th.text
+	c.Desc["impl_text_patch"] = th.patch
+	if th.pmsg != "" {
+		c.Desc["impl_text_panic"] = th.pmsg
+	}
+	nd := numDict([]string{dw, aw, bw}, []string{th.text})
+	c.Probes = append(c.Probes,
+		Probe{Kind: "corr", Rel: "v1 Diff.Render = V1.renderM", Line: fmt.Sprintf("v1render %s %s", nd, dw), Want: th.render},
+		Probe{Kind: "corr", Rel: "v1 Diff.Render(COLOR) = V1.renderM", Line: fmt.Sprintf("v1renderc %s %s", nd, dw), Want: implV1Render(dw, true)},
+	)
+	if th.render == "panic" {
+		run.Count("text_half:render-panics")
+		if inDomain {
+			c.Probes = append(c.Probes, Probe{Kind: "direct", Rel: "C17 v1 text half: patch(a, ReadDiffString(Render(diff(a,b)))) Equals b", Want: "fail Render panicked: " + th.pmsg})
+		}
+		return
+	}
+	c.Probes = append(c.Probes, Probe{Kind: "corr", Rel: "v1 ReadDiffString = V1.readDiffM", Line: fmt.Sprintf("v1readdiff %s %s", nd, textWire(th.text)), Want: th.read})
+	if strings.HasPrefix(th.read, "ok ") {
+		c.Probes = append(c.Probes, Probe{Kind: "corr", Rel: "v1 Patch (diff re-read from text) = V1.patchM", Line: fmt.Sprintf("v1patch %s %s", aw, th.read[3:]), Want: th.patch})
+	}
+	run.Count("text_half:patch-" + strings.Fields(th.patch + " ?")[0])
+	if !inDomain {
+		return
+	}
+	rel := "C17 v1 text half: patch(a, ReadDiffString(Render(diff(a,b)))) Equals b"
+	switch {
+	case strings.HasPrefix(th.patch, "ok ") && th.equalsB:
+		c.Probes = append(c.Probes, Probe{Kind: "direct", Rel: rel, Want: "ok"})
+	case th.patch == "panic" || th.read == "panic":
+		c.Probes = append(c.Probes, Probe{Kind: "direct", Rel: rel, Want: "fail panic: " + th.pmsg})
+	default:
+		what := "after Render and ReadDiffString the patched document does not Equal b"
+		if !strings.HasPrefix(th.read, "ok ") {
+			what = "the rendered diff cannot be read back"
+		} else if !strings.HasPrefix(th.patch, "ok ") {
+			what = "after Render and ReadDiffString, Patch returns an error on the library's own diff"
+		}
+		if memOK && v1KeyedPathClass(m, dw) && strings.HasPrefix(th.read, "ok ") {
+			c.Probes = append(c.Probes, Probe{Kind: "direct", Rel: rel, Want: "kf KF-C17-keyedpath " + what})
+			run.Count("text_half:keyedpath")
+		} else {
+			// not in the keyed-path class, or the in-memory half fails too: the class predicates of the
+			// driver decide (hash aliases, -0, precision, Setkeys precondition, then the keyed-path class)
+			c.Probes = append(c.Probes,
+				Probe{Kind: "oracle", Rel: rel + " — failure outside the keyed-path class, classified by the driver (hash aliases, -0, precision, Setkeys precondition)", Line: fmt.Sprintf("c17t %s %s %s %s %s", mw, aw, bw, th.patch, boolWire(th.equalsB))})
+			run.Count("text_half:failure-classified-by-driver")
+		}
+	}
+}
+
+// v1KeyedPathClass is the class predicate of KF-C17-keyedpath on the implementation's diff: SET + Setkeys
+// metadata, and two or more hunks lie under the same keyed path element (a member object followed
+// by a field that is not a set key), i.e. some keyed member changes in two or more places.
+func v1KeyedPathClass(m V1Meta, dw string) bool {
+	if !m.Has("S") || !m.Has("K") {
+		return false
+	}
+	var setKeys []string
+	for _, it := range m {
+		if it.Kind == "K" {
+			setKeys = it.Keys
+			break
+		}
+	}
+	count := map[string]int{}
+	for _, h := range splitV1Diff(dw) {
+		seen := map[string]bool{}
+		depth := 0
+		for i, t := range h.path {
+			if strings.HasPrefix(t, "[") || t == "{" {
+				depth++
+			}
+			if t == "]" || t == "}" {
+				depth--
+				if depth == 0 && t == "}" && i+1 < len(h.path) {
+					// a top-level object element that closes here and is followed by more path
+					j := i
+					d2 := 0
+					for ; j >= 0; j-- {
+						if h.path[j] == "}" || h.path[j] == "]" {
+							d2++
+						}
+						if strings.HasPrefix(h.path[j], "[") || h.path[j] == "{" {
+							d2--
+						}
+						if d2 == 0 {
+							break
+						}
+					}
+					if j >= 0 && h.path[j] == "{" && strings.HasPrefix(h.path[i+1], "\"") {
+						if kb, err := hexDecode(h.path[i+1][1:]); err == nil && !isIn(string(kb), setKeys) {
+							seen[strings.Join(h.path[:i+1], " ")] = true
+						}
+					}
+				}
+			}
+		}
+		for k := range seen {
+			count[k]++
+		}
+	}
+	for _, n := range count {
+		if n >= 2 {
+			return true
+		}
+	}
+	return false
+}
+
+// ---- hand-written diff texts for the four-state reader (correspondence only)
+
+func malformedV1DiffText(r *Rng) string {
+	lines := []string{"@ [0]", "@ [\"a\"]", "@ []", "@ [{}]", "@ [[\"set\"],{}]", "@ [[\"multiset\"],{}]", "@ [[\"MERGE\"],\"a\"]", "@ [[\"set\",\"setkeys=id\"],{\"id\":1},\"x\"]",
+		"@ [[1,2]]", "@ [true]", "@ 5", "@", "@ ", "@ {}", "@ [1.5]", "@ [-1]", "@ [1e300]", "@ [null]", "@[\"a\"]",
+		"- 1", "+ 2", "-", "+", "- ", "+ ", "  3", " ", "- {", "+ [1,", "x", "é", "", "- \"a\"", "+ \"b\"", "- 1 2", "-1", "+[1]", "- {}", "+ {}", "- null", "+ [1,[2]]",
+		"^ {\"Merge\":true}", "[", "]", "- 3\r", "+\t4"}
+	out := []string{}
+	if r.Chance(1, 2) {
+		// mostly well-formed: elements of "@ path, - values, + values", now and then a stray line
+		paths := []string{"@ [0]", "@ [\"a\"]", "@ []", "@ [{}]", "@ [[\"set\"],{}]", "@ [[\"multiset\"],{}]", "@ [[\"MERGE\"],\"a\"]", "@ [[\"MERGE\"]]", "@ [\"a\",{}]", "@ [\"a\",[\"set\"],{\"id\":1},\"x\"]", "@ [-1]", "@[1,\"b\"]", "@ [ \"a\" , 2 ]\r"}
+		vals := []string{" 1", " 2", " \"a\"", " null", " {}", " []", " [1,[2]]", " {\"a\":{\"b\":[1]}}", "", " ", " true", "1", " 1.5e3", " -0"}
+		for e := 1 + r.Intn(3); e > 0; e-- {
+			out = append(out, paths[r.Intn(len(paths))])
+			for j := r.Intn(3); j > 0; j-- {
+				out = append(out, "-"+vals[r.Intn(len(vals))])
+			}
+			for j := r.Intn(3); j > 0; j-- {
+				out = append(out, "+"+vals[r.Intn(len(vals))])
+			}
+			if r.Chance(1, 8) {
+				out = append(out, lines[r.Intn(len(lines))])
+			}
+			if r.Chance(1, 4) {
+				out = append(out, "")
+			}
+		}
+	} else {
+		for k := 1 + r.Intn(7); k > 0; k-- {
+			out = append(out, lines[r.Intn(len(lines))])
+		}
+	}
+	s := strings.Join(out, "\n")
+	if r.Chance(1, 2) {
+		s += "\n"
+	}
+	return s
+}
+
+// ---- renderers on arbitrary diffs (damaged diffs, typed values, nil metadata): correspondence only
+
+var v1RenderSpecials = []string{
+	// nil left in a metadata array by prependMetadataMerge: Render dereferences it
+	"< ( [r \"736574 NIL ] { } | | #3ff0000000000000 ) >",
+	"< ( \"61 | #3ff0000000000000 | #4000000000000000 ) ( [r \"736574 \"7365746b6579733d6964 NIL ] { \"6964 #3ff0000000000000 } \"78 | | #4000000000000000 ) >",
+	// typed arrays as values: stored order; inside an object: Json() order of the object
+	"< ( \"61 | [s #4000000000000000 #3ff0000000000000 #4000000000000000 ] | [m #4000000000000000 #3ff0000000000000 ] ) >",
+	"< ( \"61 | { \"6b [s #4000000000000000 #3ff0000000000000 #4000000000000000 \"61 ] } | [l [s \"62 \"61 \"62 ] { \"6b [s T F T ] } ] ) >",
+	// merge hunks: void new value prints a bare +
+	"< ( [r \"4d45524745 ] \"61 | | V ) ( [r \"4d45524745 ] \"62 \"63 | | { } ) >",
+	"< ( [r ] [r \"4d45524745 ] \"61 | | V ) >",
+	"< ( \"61 [r \"4d45524745 ] | | V ) >",
+	"< ( \"61 | V | V ) >",
+	// jsonStringOrInteger tokens, odd path elements
+	"< ( SORI\"30 SORI\"2d31 \"61 | #3ff0000000000000 | ) ( SORI\"3031 | | N ) >",
+	"< ( V N T #bff0000000000000 #3ff8000000000000 \"2d | | #3ff0000000000000 ) >",
+	"< ( \"2d | | #3ff0000000000000 ) >",
+	"< ( #bff0000000000000 | | #3ff0000000000000 ) ( \"612f62 \"6d7e6e \" \"7e31 | \"3c3e | ) >",
+	"< ( [s \"61 ] | | #3ff0000000000000 ) ( { \"6b [s #4000000000000000 #3ff0000000000000 ] } \"61 | | #3ff0000000000000 ) >",
+	"< ( [r \"4d45524745 \"736574 ] \"61 | | #3ff0000000000000 ) ( [l \"4d45524745 ] \"61 | | #3ff0000000000000 ) >",
+	"< ( [r \"4d45524745 ] | | N ) >",
+	"< ( [r \"4d45524745 ] | | V ) >",
+	"< ( [r \"4d45524745 ] SORI\"30 | | #3ff0000000000000 ) >",
+	"< ( [r \"4d45524745 ] \"61 SORI\"30 | | #3ff0000000000000 ) ( [r \"4d45524745 ] \"61 SORI\"31 \"62 | | #3ff0000000000000 ) >",
+	"< ( | | ) >",
+	"< ( \"61 | #3ff0000000000000 #4000000000000000 | ) >",
+	"< >",
+}
+
+func addV1RenderCase(run *Run, label, dw string) {
+	native := implV1Render(dw, false)
+	ntext, okNative := outcomeText(native)
+	ptxt := implV1RenderPatch(dw)
+	ptext, _ := outcomeText(ptxt)
+	mtxt := implV1RenderMerge(dw)
+	mtext, _ := outcomeText(mtxt)
+	c := Case{Recipe: Recipe{"c17render", []string{dw}}, Desc: map[string]string{"api": "v1 (github.com/josephburnett/jd/lib)", "kind": "renderers on an arbitrary diff", "diff_wire": dw, "impl_render": native, "impl_render_patch": ptxt, "impl_render_merge": mtxt, "domain": "out"}}
+	c.Sig = "render|" + dw
+	c.Nontrivial = true
+	nd := numDict([]string{dw}, []string{ntext, ptext, mtext})
+	c.Probes = append(c.Probes,
+		Probe{Kind: "corr", Rel: "v1 Diff.Render = V1.renderM (arbitrary diff)", Line: fmt.Sprintf("v1render %s %s", nd, dw), Want: native},
+		Probe{Kind: "corr", Rel: "v1 Diff.Render(COLOR) = V1.renderM (arbitrary diff)", Line: fmt.Sprintf("v1renderc %s %s", nd, dw), Want: implV1Render(dw, true)},
+		Probe{Kind: "corr", Rel: "v1 RenderPatch = V1.renderPatchM (arbitrary diff)", Line: fmt.Sprintf("v1renderpatch %s %s", nd, dw), Want: ptxt},
+		Probe{Kind: "corr", Rel: "v1 RenderMerge = V1.renderMergeM (arbitrary diff)", Line: fmt.Sprintf("v1rendermerge %s %s", nd, dw), Want: mtxt},
+	)
+	if okNative {
+		c.Probes = append(c.Probes, Probe{Kind: "corr", Rel: "v1 ReadDiffString = V1.readDiffM (text of an arbitrary diff)", Line: fmt.Sprintf("v1readdiff %s %s", nd, textWire(ntext)), Want: implV1ReadDiff(ntext)})
+	}
+	run.Count("meta:x:render-arbitrary " + label)
+	run.Count("render_arbitrary:native-" + strings.Fields(native + " ?")[0] + ",patch-" + strings.Fields(ptxt + " ?")[0] + ",merge-" + strings.Fields(mtxt + " ?")[0])
+	run.Add(c)
+}
+
+func addV1ReadDiffCase(run *Run, text string) {
+	rd := implV1ReadDiff(text)
+	c := Case{Recipe: Recipe{"c17read", []string{text}}, Desc: map[string]string{"api": "v1 (github.com/josephburnett/jd/lib)", "kind": "hand-written diff text", "text": text, "impl_read": rd, "domain": "out"}}
+	c.Sig = "text|" + text
+	c.Nontrivial = true
+	nd := numDict([]string{rd}, []string{text})
+	c.Probes = append(c.Probes, Probe{Kind: "corr", Rel: "v1 ReadDiffString = V1.readDiffM (hand-written line sequences)", Line: fmt.Sprintf("v1readdiff %s %s", nd, textWire(text)), Want: rd})
+	if strings.HasPrefix(rd, "ok ") {
+		// what was read renders again, and the model agrees
+		rw := implV1Render(rd[3:], false)
+		t2, _ := outcomeText(rw)
+		nd2 := numDict([]string{rd}, []string{text, t2})
+		c.Probes = append(c.Probes, Probe{Kind: "corr", Rel: "v1 Diff.Render = V1.renderM (diff read from hand-written text)", Line: fmt.Sprintf("v1render %s %s", nd2, rd[3:]), Want: rw})
+	}
+	run.Count("meta:x:hand-written-text")
+	run.Count("read_text:" + strings.Fields(rd + " ?")[0])
 	run.Add(c)
 }
 
@@ -306,6 +571,9 @@ func addV1HostileCase(run *Run, m V1Meta, label string, a, b *Val, r *Rng, cfg G
 		return
 	}
 	mut := mutateV1Diff(r, dw, cfg)
+	if r.Chance(1, 2) {
+		addV1RenderCase(run, "damaged", mut)
+	}
 	target := aw
 	switch r.Intn(4) {
 	case 0:
@@ -327,8 +595,353 @@ func addV1PatchCase(run *Run, label, nw, dw string) {
 	run.Add(c)
 }
 
+// ---------------------------------------------------------------------------------------------
+// C18 — v1 JSON Patch / JSON Merge Patch output: evaluated by independent RFC 6902 / RFC 7386
+// implementations on a it yields b; read back with the v1 readers and applied to a it yields b.
+
+var c18Keys = []string{"a", "b", "0", "1", "10", "01", "-1", "a/b", "m~n", "", "~1"}
+var c18KeysMore = []string{"a", "0", "1", "2", "-0", "+1", "007", "9223372036854775807", "9223372036854775808", "1e3", "1.0", "٣", " 1", "~0", "~01", "/", "//", "~", "a~1b", "é", "<&>", "k"}
+
+func c18Cfg(r *Rng) GenCfg {
+	cfg := DefaultCfg()
+	cfg.ScalarBias = 4
+	cfg.Keys = c18Keys
+	cfg.MaxKeys = 4
+	if r.Chance(1, 5) {
+		cfg.Keys = c18KeysMore
+	}
+	if r.Chance(1, 4) {
+		cfg.Strs = nastyStrs
+	}
+	if r.Chance(1, 5) {
+		cfg.Nums = nastyNums
+	}
+	if r.Chance(1, 5) {
+		d := DeepCfg()
+		d.Keys, d.Strs, d.Nums = cfg.Keys, cfg.Strs, cfg.Nums
+		return d
+	}
+	return cfg
+}
+
+func c18MergeMetas() []struct {
+	m     V1Meta
+	label string
+} {
+	S, B, M := OptItem{Kind: "S"}, OptItem{Kind: "B"}, OptItem{Kind: "M"}
+	P0 := OptItem{Kind: "P", Prec: 0}
+	return []struct {
+		m     V1Meta
+		label string
+	}{
+		{V1Meta{M}, "MERGE"},
+		{V1Meta{M}, "MERGE"},
+		{V1Meta{M, P0}, "MERGE+SetPrecision(0) [CLI]"},
+		{V1Meta{S, M}, "SET+MERGE"},
+		{V1Meta{B, M}, "MULTISET+MERGE"},
+	}
+}
+
+func propC18(run *Run, n int) {
+	run.rule = "v1 (package lib): random (a, b) over key pools with integer-looking keys (0, 1, 10, 01, -1, …) and keys needing pointer escaping (a/b, m~n, empty, ~1, …), objects and arrays nested in each other; (1) list mode: d = a.Diff(b) -> RenderPatch -> RFC 6902 evaluation on a, and ReadPatchString -> Patch on a; (2) merge mode (null-free, a not Equal b) x {MERGE, MERGE+SetPrecision(0), SET+MERGE, MULTISET+MERGE}: RenderMerge -> RFC 7386 MergePatch on a, and ReadMergeString -> Patch on a; non-trivial = the diff has at least one hunk; distinct = distinct (mode, a, b)"
+	r := NewRng(run.Seed)
+	metas := c18MergeMetas()
+	for i := 0; i < n; i++ {
+		cfg := c18Cfg(r)
+		if r.Chance(3, 5) {
+			a, b := c18Pair(r, cfg)
+			if a.K == KVoid || b.K == KVoid {
+				continue
+			}
+			addC18PatchCase(run, a, b)
+		} else {
+			cfg.AllowNull = false
+			mm := metas[r.Intn(len(metas))]
+			a, b := c18Pair(r, cfg)
+			if a.K == KVoid || b.K == KVoid {
+				continue
+			}
+			addC18MergeCase(run, mm.m, mm.label, a, b)
+		}
+		if r.Chance(1, 8) {
+			// the readers on texts that are not the library's own output (correspondence only)
+			a, b := c18Pair(r, cfg)
+			if a.K == KVoid || b.K == KVoid {
+				continue
+			}
+			if r.Chance(1, 2) {
+				addV1ReadPatchTextCase(run, variedV1PatchText(r, a, b), perturb(r, cfg, a, b))
+			} else {
+				p := cfg.Doc(r, 0)
+				if r.Chance(1, 2) {
+					p = mergeShape(r, cfg, a, 0)
+				}
+				if p.K != KVoid {
+					addV1ReadMergeTextCase(run, p, a)
+				}
+			}
+		}
+	}
+}
+
+// variedV1PatchText: the library's own JSON Patch for (a,b) with one variation, or a hand-written document
+func variedV1PatchText(r *Rng, a, b *Val) string {
+	fixed := []string{`[]`, `null`, `{}`, `[null]`, `[1]`, `[{"op":"add","path":"/a","value":1}]`, `[{"op":"add","path":"a","value":1}]`, `[{"op":"add","path":"","value":1}]`,
+		`[{"op":"add","path":"/-","value":1}]`, `[{"op":"add","path":"/01","value":1}]`, `[{"op":"add","path":"/+1","value":1}]`, `[{"op":"add","path":"/~2/~","value":1}]`, `[{"op":"add","path":"/a~1b/m~0n//","value":1}]`,
+		`[{"op":"replace","path":"/a","value":1}]`, `[{"op":"test","path":"/a","value":1}]`, `[{"op":"test","path":"/a","value":1},{"op":"remove","path":"/a"}]`, `[{"op":"test","path":"/a","value":1},{"op":"remove","path":"/b","value":1}]`,
+		`[{"op":"test","path":"/a","value":[1,{"k":null}]},{"op":"remove","path":"/a","value":[1,{"k":null}]},{"op":"add","path":"/a"}]`, `[{"op":"remove","path":"/a","value":1}]`, `[{"op":"add","path":5,"value":1}]`, `[{"op":"add"}]`, `[{"path":"/a","value":1}]`,
+		`[{"op":"add","path":"/0/1/-","value":{"0":[]}}]`, `[{"op":"test","path":"/9223372036854775807","value":1},{"op":"remove","path":"/9223372036854775807","value":1}]`, `[{"op":"add","path":"/9223372036854775808","value":1}]`, `not json`, ``}
+	if r.Chance(1, 3) {
+		return fixed[r.Intn(len(fixed))]
+	}
+	dw := implV1Diff(V1Meta{}, a.Wire(), b.Wire())
+	txt := implV1RenderPatch(dw)
+	s, ok := outcomeText(txt)
+	if !ok {
+		return fixed[r.Intn(len(fixed))]
+	}
+	var ops []jop
+	if err := json.Unmarshal([]byte(s), &ops); err != nil || len(ops) == 0 {
+		return s
+	}
+	i := r.Intn(len(ops))
+	switch r.Intn(7) {
+	case 0:
+		ops[i].Op = []string{"replace", "move", "copy", "test", "remove", "add", ""}[r.Intn(7)]
+	case 1:
+		ops = append(ops[:i], ops[i+1:]...)
+	case 2:
+		ops[i].Value = json.RawMessage(`"changed"`)
+	case 3:
+		ops[i].Path += []string{"/0", "/-", "/01", "/-1", "/a", "/", "/~1", "x"}[r.Intn(8)]
+	case 4:
+		if j := r.Intn(len(ops)); j != i {
+			ops[i], ops[j] = ops[j], ops[i]
+		}
+	case 5:
+		ops[i].Path = strings.Replace(ops[i].Path, "/", "/0", 1)
+	}
+	out, _ := json.Marshal(ops)
+	return string(out)
+}
+
+func addV1ReadPatchTextCase(run *Run, text string, t *Val) {
+	tw := t.Wire()
+	rd := implV1ReadPatch(text)
+	c := Case{Recipe: Recipe{"c18readpatch", []string{text, tw}}, Desc: map[string]string{"api": "v1 (github.com/josephburnett/jd/lib)", "kind": "JSON Patch text that is not the library's own output", "text": text, "target": t.Human(), "impl_read": rd, "domain": "out"}}
+	c.Sig = "rp|" + text + "|" + tw
+	c.Nontrivial = true
+	nd := numDict([]string{tw, rd}, []string{text})
+	c.Probes = append(c.Probes, Probe{Kind: "corr", Rel: "v1 ReadPatchString = V1.readPatchM (varied / hand-written JSON Patch)", Line: fmt.Sprintf("v1readpatch %s %s", nd, textWire(text)), Want: rd})
+	po := "unread"
+	if strings.HasPrefix(rd, "ok ") {
+		po = implV1Patch(tw, rd[3:])
+		c.Desc["impl_patch"] = po
+		c.Probes = append(c.Probes, Probe{Kind: "corr", Rel: "v1 Patch (jsonStringOrInteger path elements, any target) = V1.patchP", Line: fmt.Sprintf("v1patch %s %s", tw, rd[3:]), Want: po})
+	}
+	run.Count("mode:x:varied-json-patch")
+	run.Count("varied_patch:read-" + strings.Fields(rd + " ?")[0] + ",patch-" + strings.Fields(po + " ?")[0])
+	run.Add(c)
+}
+
+func addV1ReadMergeTextCase(run *Run, p, t *Val) {
+	tw := t.Wire()
+	ptext := ""
+	safely(func() string { ptext = mustNodeV1(p.Wire()).Json(); return "" })
+	rd := implV1ReadMerge(ptext)
+	c := Case{Recipe: Recipe{"c18readmerge", []string{p.Wire(), tw}}, Desc: map[string]string{"api": "v1 (github.com/josephburnett/jd/lib)", "kind": "arbitrary JSON Merge Patch document", "text": ptext, "target": t.Human(), "impl_read": rd, "domain": "out"}}
+	c.Sig = "rm|" + ptext + "|" + tw
+	c.Nontrivial = true
+	nd := numDict([]string{tw, p.Wire(), rd}, []string{ptext})
+	c.Probes = append(c.Probes,
+		Probe{Kind: "corr", Rel: "v1 Json() = V1.jsonM", Line: fmt.Sprintf("v1json %s %s", nd, p.Wire()), Want: "ok " + textWire(ptext)},
+		Probe{Kind: "corr", Rel: "v1 ReadMergeString = V1.readMergeM (arbitrary document, as a set of hunks)", Line: fmt.Sprintf("v1readmerge %s %s", nd, textWire(ptext)), Want: sortV1Hunks(rd)})
+	po := "unread"
+	if strings.HasPrefix(rd, "ok ") {
+		po = implV1Patch(tw, rd[3:])
+		c.Probes = append(c.Probes, Probe{Kind: "corr", Rel: "v1 Patch (merge hunks, any target) = V1.patchM", Line: fmt.Sprintf("v1patch %s %s", tw, rd[3:]), Want: po})
+	}
+	run.Count("mode:x:arbitrary-merge-patch")
+	run.Count("arbitrary_merge:patch-" + strings.Fields(po + " ?")[0])
+	run.Add(c)
+}
+
+// c18Pair: mostly objects / arrays at the root so that the paths are not empty
+func c18Pair(r *Rng, cfg GenCfg) (*Val, *Val) {
+	a, b := cfg.Pair(r)
+	if r.Chance(1, 2) && a.K != KObj && a.K != KArr {
+		a = cfg.Obj(r, 0)
+		b = cfg.Mutate(r, a, 4)
+	}
+	if r.Chance(1, 6) {
+		// an object whose integer-looking keys sit next to an array with the same "indices"
+		a = VObj("0", cfg.Arr(r, 1), "1", cfg.Obj(r, 1), "a", VArr(cfg.Obj(r, 1), cfg.Doc(r, 1)))
+		b = cfg.Mutate(r, a, 4)
+	}
+	return a, b
+}
+
+func sortV1Hunks(out string) string {
+	if !strings.HasPrefix(out, "ok <") {
+		return out
+	}
+	hs := splitHunks(out[3:])
+	sort.Strings(hs)
+	if len(hs) == 0 {
+		return "ok < >"
+	}
+	return "ok < " + strings.Join(hs, " ") + " >"
+}
+
+func addC18PatchCase(run *Run, a, b *Val) {
+	aw, bw := a.Wire(), b.Wire()
+	none := V1Meta{}
+	dw := implV1Diff(none, aw, bw)
+	c := Case{Recipe: Recipe{"c18p", []string{aw, bw}}, Desc: map[string]string{"api": "v1 (github.com/josephburnett/jd/lib)", "mode": "list / JSON Patch", "a": a.Human(), "b": b.Human(), "a_wire": aw, "b_wire": bw, "impl_diff": dw}}
+	c.Sig = "p|" + aw + "|" + bw
+	c.Nontrivial = hunkCount(dw) > 0
+	if dw == "panic" {
+		c.Probes = append(c.Probes, Probe{Kind: "direct", Rel: "C18 v1 Diff does not panic", Want: "fail Diff panicked"})
+		run.Add(c)
+		return
+	}
+	txt := implV1RenderPatch(dw)
+	text, okText := outcomeText(txt)
+	rd, po := "err", "err"
+	if okText {
+		c.Desc["impl_patch_text"] = text
+		rd = implV1ReadPatch(text)
+		if strings.HasPrefix(rd, "ok ") {
+			po = implV1Patch(aw, rd[3:])
+		} else if rd == "panic" {
+			po = "panic"
+		}
+	} else {
+		c.Desc["impl_patch_text"] = txt
+	}
+	c.Desc["impl_read"] = rd
+	c.Desc["impl_readback_patch"] = po
+	native := implV1Render(dw, false)
+	ntext, _ := outcomeText(native)
+	nd := numDict([]string{dw, aw, bw, rd, po}, []string{text, ntext})
+	c.Probes = append(c.Probes,
+		Probe{Kind: "corr", Rel: "v1 Diff = V1.diffM (list mode)", Line: fmt.Sprintf("v1diff m= %s %s", aw, bw), Want: dw},
+		Probe{Kind: "corr", Rel: "v1 RenderPatch = V1.renderPatchM", Line: fmt.Sprintf("v1renderpatch %s %s", nd, dw), Want: txt},
+		Probe{Kind: "corr", Rel: "v1 Diff.Render = V1.renderM", Line: fmt.Sprintf("v1render %s %s", nd, dw), Want: native},
+	)
+	if okText {
+		c.Probes = append(c.Probes, Probe{Kind: "corr", Rel: "v1 ReadPatchString = V1.readPatchM", Line: fmt.Sprintf("v1readpatch %s %s", nd, textWire(text)), Want: rd})
+		if strings.HasPrefix(rd, "ok ") {
+			c.Probes = append(c.Probes, Probe{Kind: "corr", Rel: "v1 Patch (diff read from JSON Patch: jsonStringOrInteger path elements) = V1.patchP", Line: fmt.Sprintf("v1patch %s %s", aw, rd[3:]), Want: po})
+			// the diff read from the JSON Patch, rendered again in both formats (jsonStringOrInteger tokens in paths)
+			rw := implV1Render(rd[3:], false)
+			rt, _ := outcomeText(rw)
+			pw := implV1RenderPatch(rd[3:])
+			pt, _ := outcomeText(pw)
+			nd2 := numDict([]string{rd}, []string{rt, pt})
+			c.Probes = append(c.Probes,
+				Probe{Kind: "corr", Rel: "v1 Diff.Render = V1.renderM (diff read from JSON Patch)", Line: fmt.Sprintf("v1render %s %s", nd2, rd[3:]), Want: rw},
+				Probe{Kind: "corr", Rel: "v1 RenderPatch = V1.renderPatchM (diff read from JSON Patch)", Line: fmt.Sprintf("v1renderpatch %s %s", nd2, rd[3:]), Want: pw})
+		}
+	}
+	c.Probes = append(c.Probes, Probe{Kind: "oracle", Rel: "C18 v1 JSON Patch: RFC 6902 evaluation of RenderPatch(diff(a,b)) on a gives b; ReadPatchString + Patch on a gives b",
+		Line: fmt.Sprintf("c18p %s %s %s %s %s", nd, aw, bw, txt, po)})
+	run.Count("mode:list")
+	run.Count("render_patch:" + strings.Fields(txt + " ?")[0])
+	run.Count("readback_patch:" + strings.Fields(po + " ?")[0])
+	run.Count("hunks:" + sizeBucket(hunkCount(dw)))
+	if strings.Contains(rd, "SORI\"") {
+		run.Count("read_path_has_string_or_integer")
+	}
+	run.Add(c)
+}
+
+func addC18MergeCase(run *Run, m V1Meta, label string, a, b *Val) {
+	aw, bw, mw := a.Wire(), b.Wire(), m.Wire()
+	if implV1Equals(m, aw, bw) == "T" {
+		run.Count("skipped:equal")
+		return
+	}
+	dw := implV1Diff(m, aw, bw)
+	c := Case{Recipe: Recipe{"c18m", []string{mw, aw, bw}}, Desc: map[string]string{"api": "v1 (github.com/josephburnett/jd/lib)", "mode": "merge / JSON Merge Patch", "metadata": m.Name(), "a": a.Human(), "b": b.Human(), "a_wire": aw, "b_wire": bw, "meta_wire": mw, "impl_diff": dw}}
+	c.Sig = "m|" + mw + "|" + aw + "|" + bw
+	c.Nontrivial = hunkCount(dw) > 0
+	if dw == "panic" {
+		c.Probes = append(c.Probes, Probe{Kind: "direct", Rel: "C18 v1 Diff does not panic", Want: "fail Diff panicked"})
+		run.Add(c)
+		return
+	}
+	txt := implV1RenderMerge(dw)
+	text, okText := outcomeText(txt)
+	rd, po := "err", "err"
+	if okText {
+		c.Desc["impl_merge_text"] = text
+		rd = implV1ReadMerge(text)
+		if strings.HasPrefix(rd, "ok ") {
+			po = implV1Patch(aw, rd[3:])
+		} else if rd == "panic" {
+			po = "panic"
+		}
+	} else {
+		c.Desc["impl_merge_text"] = txt
+	}
+	c.Desc["impl_read"] = rd
+	c.Desc["impl_readback_patch"] = po
+	native := implV1Render(dw, false)
+	ntext, _ := outcomeText(native)
+	nd := numDict([]string{dw, aw, bw, rd, po}, []string{text, ntext})
+	c.Probes = append(c.Probes,
+		Probe{Kind: "corr", Rel: "v1 Diff = V1.diffM (merge mode)", Line: fmt.Sprintf("v1diff %s %s %s", mw, aw, bw), Want: dw},
+		Probe{Kind: "corr", Rel: "v1 RenderMerge = V1.renderMergeM", Line: fmt.Sprintf("v1rendermerge %s %s", nd, dw), Want: txt},
+		Probe{Kind: "corr", Rel: "v1 Diff.Render = V1.renderM", Line: fmt.Sprintf("v1render %s %s", nd, dw), Want: native},
+	)
+	if okText {
+		c.Probes = append(c.Probes, Probe{Kind: "corr", Rel: "v1 ReadMergeString = V1.readMergeM (as a set of hunks: the reader ranges over a Go map)", Line: fmt.Sprintf("v1readmerge %s %s", nd, textWire(text)), Want: sortV1Hunks(rd)})
+		if strings.HasPrefix(rd, "ok ") {
+			c.Probes = append(c.Probes, Probe{Kind: "corr", Rel: "v1 Patch (diff read from JSON Merge Patch) = V1.patchM", Line: fmt.Sprintf("v1patch %s %s", aw, rd[3:]), Want: po})
+		}
+	}
+	c.Probes = append(c.Probes, Probe{Kind: "oracle", Rel: "C18 v1 JSON Merge Patch: RFC 7386 MergePatch(a, RenderMerge(diff(a,b))) ≈ b; ReadMergeString + Patch on a ≈ b",
+		Line: fmt.Sprintf("c18m %s %s %s %s %s %s", nd, mw, aw, bw, txt, po)})
+	run.Count("mode:merge " + label)
+	run.Count("render_merge:" + strings.Fields(txt + " ?")[0])
+	run.Count("readback_merge:" + strings.Fields(po + " ?")[0])
+	run.Count("hunks:" + sizeBucket(hunkCount(dw)))
+	run.Add(c)
+}
+
+func init() {
+	props["C18"] = propC18
+	quickN["C18"] = 3000
+	thoroughN["C18"] = 100000
+	recipes["c18"] = func(run *Run, a []string) {
+		// c18 p <a> <b>  |  c18 m <meta> <a> <b>
+		if a[0] == "p" {
+			addC18PatchCase(run, mustVal(a[1]), mustVal(a[2]))
+			return
+		}
+		m, err := ParseV1Meta(a[1])
+		if err != nil {
+			panic(err)
+		}
+		addC18MergeCase(run, m, "corpus", mustVal(a[2]), mustVal(a[3]))
+	}
+	recipes["c18readpatch"] = func(run *Run, a []string) { addV1ReadPatchTextCase(run, a[0], mustVal(a[1])) }
+	recipes["c18readmerge"] = func(run *Run, a []string) { addV1ReadMergeTextCase(run, mustVal(a[0]), mustVal(a[1])) }
+	recipes["c18p"] = func(run *Run, a []string) { addC18PatchCase(run, mustVal(a[0]), mustVal(a[1])) }
+	recipes["c18m"] = func(run *Run, a []string) {
+		m, err := ParseV1Meta(a[0])
+		if err != nil {
+			panic(err)
+		}
+		addC18MergeCase(run, m, "corpus", mustVal(a[1]), mustVal(a[2]))
+	}
+}
+
 func init() {
 	recipes["c17patch"] = func(run *Run, a []string) { addV1PatchCase(run, "corpus", a[0], a[1]) }
+	recipes["c17read"] = func(run *Run, a []string) { addV1ReadDiffCase(run, a[0]) }
+	recipes["c17render"] = func(run *Run, a []string) { addV1RenderCase(run, "corpus", a[0]) }
 	props["C17"] = propC17
 	quickN["C17"] = 4000
 	thoroughN["C17"] = 150000
